@@ -393,7 +393,7 @@ def _mc_cfg(mode, ml, me, mnc, spec="Spec", emit=False):
 
 def design_runs(ctx):
     res = {"states": 0, "transitions": 0, "runs": []}
-    bounds = [(4, 2, 2)] if ctx.quick else [(4, 3, 1), (5, 2, 2), (7, 1, 2)]
+    bounds = [(4, 2, 2)] if ctx.quick else [(4, 3, 1), (5, 2, 2), (6, 1, 2)]
     for ml, me, mnc in bounds:
         r = tlc.run("MC_Layout.tla", _mc_cfg("mc", ml, me, mnc), ctx.sub("mc_%d_%d_%d" % (ml, me, mnc)),
                     spec_dirs=[SPEC_DIR], workers=NWORKERS, timeout=3000, expect_fail=True)
